@@ -27,7 +27,7 @@ RULE = ("eps-NFA / PDA / FST objects whose values are JSON-representable (ints, 
 ASSUMPTIONS = ["values are restricted as the property's quantifier says (no epsilon spellings, no ' -> ' / ' / ')"]
 TIERS = {
     "quick": {"workers": 4, "random": 1500},
-    "thorough": {"workers": 16, "random": 15000, "pytest": True, "hard_timeout": 3000},
+    "thorough": {"workers": 16, "random": 50000, "pytest": True, "hard_timeout": 3000},
 }
 MIN = {"quick": {"C20.FiniteAutomaton.from_networkx": 500, "C20.PDA.from_networkx": 500, "C20.FST.from_networkx": 500,
                  "C20.CFG.from_text": 500, "C20.RecursiveAutomaton.from_ebnf": 300,
